@@ -918,7 +918,31 @@ class PyGen:
             items = []
             for _ in range(1 + cs.small(2)):
                 mid = self.fresh()
-                it = [M('withitem', mid, False)] + self.test()
+                if cs.bool(60):
+                    # an item that begins with a parenthesis which is *not* the statement's own: the grammar has a copy of its
+                    # atom / primary rules just for this position
+                    self.feat('with_item_led_by_parenthesis')
+                    inner = [tk('(')] + self.sub('test') + [tk(')')]
+                    j = cs.choice(6)
+                    if j == 0:
+                        expr = inner + [tk('.'), self.name()]
+                    elif j == 1:
+                        expr = inner + [tk('[')] + self.sub('test') + [tk(']')]
+                    elif j == 2:
+                        expr = inner + [tk('(')] + (self.sub('test') if cs.bool() else []) + [tk(')')]
+                    elif j == 3:
+                        expr = inner + [tk(cs.pick(['+', 'or', '**', 'if']))] + (self.sub('or') + [tk('else')] + self.sub('or') if False else self.sub('or'))
+                        if expr[len(inner)].s == 'if':
+                            expr += [tk('else')] + self.sub('or')
+                    elif j == 4:
+                        expr = inner + [tk('.'), self.name(), tk('(')] + [tk(')')] + [tk('.'), self.name()]
+                    else:
+                        expr = [tk(cs.pick(['[', '{', '(']))]
+                        close = {'[': ']', '{': '}', '(': ')'}[expr[0].s]
+                        expr += self.sub('or') + [tk('for'), self.name(soft_ok=False), tk('in')] + self.sub('or') + [tk(close)]
+                    it = [M('withitem', mid, False)] + expr
+                else:
+                    it = [M('withitem', mid, False)] + self.test()
                 if cs.bool(120):
                     it += [tk('as')] + self.target(False, 0)
                 it.append(M('withitem', mid, True))
